@@ -43,6 +43,7 @@ type kvStep struct {
 	Hold bool    `json:"hold,omitempty"`
 	ID   int     `json:"id,omitempty"`
 	N    int     `json:"n,omitempty"`
+	Cap  int     `json:"cap,omitempty"` // push prefix: spare capacity of the prefix slice handed to the store
 }
 
 type kvPair struct{ k, v []byte }
@@ -290,7 +291,13 @@ func (s *kvSim) exec(st kvStep) {
 			l = &kvLayer{kind: "cache", store: cachekv.NewStore(top.store), pending: map[string]*[]byte{}}
 		} else {
 			p := core.UnHex(st.K)
-			l = &kvLayer{kind: "prefix", store: prefix.NewStore(top.store, p), prefix: p}
+			// the slice the store receives may have room behind its length (callers build prefixes
+			// with append); the model keeps its own copy
+			handed := append(make([]byte, 0, len(p)+st.Cap), p...)
+			l = &kvLayer{kind: "prefix", store: prefix.NewStore(top.store, handed), prefix: p}
+			if st.Cap > 0 {
+				s.res.Probe("prefix_slice_with_spare_capacity")
+			}
 			if len(p) > 0 && p[len(p)-1] == 0xff {
 				s.res.Probe("prefix_ends_ff")
 			}
@@ -503,7 +510,7 @@ func (s *kvSim) gen(r *core.Rand) kvStep {
 			default:
 				p = genKey(r, 2)
 			}
-			return kvStep{Op: "push", Kind: "prefix", K: core.Hex(p)}
+			return kvStep{Op: "push", Kind: "prefix", K: core.Hex(p), Cap: []int{0, 0, 1, 4, 16}[r.Intn(5)]}
 		}
 		return kvStep{Op: "push", Kind: "cache"}
 	case 1:
